@@ -22,7 +22,7 @@ import gen_sql  # noqa: E402
 
 from mirsym import NONE, UNIT, Agg, Cell, Opaque, Ref, Str, Sym, Unsupported, err, ok, some  # noqa: E402
 import ienv  # noqa: E402
-from ienv import deref, push_cont, closure_of, closure_env  # noqa: E402
+from ienv import deref, push_cont, closure_of, closure_env, call_args  # noqa: E402
 
 NULL = ('null',)
 DB_OF = [None]   # the database of the call being interpreted (sub-selects)
@@ -408,7 +408,7 @@ def _dispatch(it, st, stack, fr, dest, c, args, ret_bb):
         if kind == 'none':
             return err(rusqlite_err('QueryReturnedNoRows'))
         fn, env = closure_of(it, args[3])
-        return push_cont(it, stack, dest, fn, [closure_env(fn, env), Ref(Cell(row))], ret_bb, ienv._ident)
+        return push_cont(it, stack, dest, fn, call_args(fn, env, [Ref(Cell(row))]), ret_bb, ienv._ident)
     m = re.search(r'Row::<.*?>::get::<(&?\w+), (.+)>$', c)
     if m:
         row = deref(args[0])
